@@ -1301,11 +1301,18 @@ var vtACSNames = map[byte]rune{
 func (t *tScreen) buildAcsMap() {
 	acsstr := t.ti.AltChars
 	t.acs = make(map[rune]string)
+	// These strings are written together with the cell text, not through
+	// TPuts, so they must not carry padding ($<2> on the DEC terminals).
+	nopad := *t.ti
+	nopad.PadChar = ""
+	var enter, exit strings.Builder
+	nopad.TPuts(&enter, t.ti.EnterAcs)
+	nopad.TPuts(&exit, t.ti.ExitAcs)
 	for len(acsstr) > 2 {
 		srcv := acsstr[0]
 		dstv := string(acsstr[1])
 		if r, ok := vtACSNames[srcv]; ok {
-			t.acs[r] = t.ti.EnterAcs + dstv + t.ti.ExitAcs
+			t.acs[r] = enter.String() + dstv + exit.String()
 		}
 		acsstr = acsstr[2:]
 	}
